@@ -26,6 +26,8 @@ def child_main(job, ask):
             st = gen.next(ex)
             if st is None:
                 break
+            if gen.cfg.get("dt"):
+                st["dt"] = gen.draw_dt()
             steps.append(st)
             ex.step(st)
     elif mode == "replay":
@@ -54,6 +56,7 @@ def child_main(job, ask):
         "intr_sites": sorted([list(s) for s in ex.intr_sites]),
         "nontrivial": bool(judged_after > 0 or cold_then_warm),
         "opaque": C.STATS["opaque"],
+        "sim_time": ex.clock.now - ex.clock.T0, "clock_reads_by_library": ex.clock.reads_by_library,
         "warm": sorted(ex.warm),
     }
     return report
